@@ -265,6 +265,14 @@ def to_val(t, view, route='index'):
             for x in view.readonly_iter():
                 out.append(to_val(t[1], x, route))
             return '(s' + ''.join(' ' + x for x in out) + ')'
+        if route == 'reiter':
+            # the SAME read-only iterator object iterated again after a pass that stopped early
+            it = view.readonly_iter()
+            stop_after = max(1, len(view) // 3)
+            for n_, _x in enumerate(it):
+                if n_ + 1 >= stop_after:
+                    break
+            return '(s' + ''.join(' ' + to_val(t[1], x, 'roiter') for x in it) + ')'
         if route == 'zip':
             a, b, off = _interleaved(lambda: view.readonly_iter(), len(view), lambda x: to_val(t[1], x, route))
             return '(s' + ''.join(' ' + x for x in a) + ')' if a[off:] == b else 'INTERLEAVED-ITERATIONS-DIFFER'
@@ -272,7 +280,7 @@ def to_val(t, view, route='index'):
             items = view[0:len(view)]
             return '(s' + ''.join(' ' + to_val(t[1], x, route) for x in items) + ')'
     if k == 'cont':
-        if route in ('index', 'slice', 'zip'):
+        if route in ('index', 'slice', 'zip', 'reiter'):
             items = [getattr(view, 'f%d' % i) for i in range(len(t) - 1)]
         else:
             items = list(view)
@@ -442,7 +450,7 @@ def run_val(t, v):
         return '%s/%d/%d' % (s.getvalue()[3:].hex(), n, s.tell() - 3)
     put('p.stream', E(stream_write))
     put('p.vbl', E(lambda: str(x.value_byte_length())))
-    for route in ('index', 'iter', 'roiter', 'slice', 'zip'):
+    for route in ('index', 'iter', 'roiter', 'slice', 'zip', 'reiter'):
         put('p.read.' + route, E(lambda: to_val(t, x, route)))
     if not isinstance(t, str) and kind(t) in ('vec', 'list', 'bv', 'bl'):
         n_el = len(v) - 1
@@ -648,6 +656,13 @@ def apply_op(t, x, op):
             raise ValueError("unsupported")
     elif k == 'pop':
         x.pop()
+    elif k == 'setb':
+        i = int(op[1])
+        raw = bytes.fromhex(op[2][1:])
+        if tk == 'cont':
+            setattr(x, 'f%d' % i, raw)
+        else:
+            x[i] = raw
     elif k == 'seth':
         i = int(op[1])
         val = _PREPARED.pop(id(op), None)
@@ -1013,7 +1028,19 @@ def run_tree(tr, cmds):
             out.append('%d.graft=%s' % (k, E(graft)))
             out.append('%d.target=%s' % (k, hexr(b)))
         elif op == 'leaves':
-            out.append('%d.leaves=%s' % (k, E(lambda: ','.join(hexr(x) for x in leaf_iter(n)))))
+            def leaves():
+                # an abandoned iteration and two interleaved ones first: each iteration must list the leaves of ITS tree
+                it0 = leaf_iter(n)
+                next(it0, None)
+                a, b = [], []
+                for x, y in zip(leaf_iter(n), leaf_iter(n)):
+                    a.append(hexr(x))
+                    b.append(hexr(y))
+                full = [hexr(x) for x in leaf_iter(n)]
+                if a != full or b != full:
+                    return 'INTERLEAVED-ITERATIONS-DIFFER'
+                return ','.join(full)
+            out.append('%d.leaves=%s' % (k, E(leaves)))
         elif op == 'hist':
             from remerkleable.history import get_target_history
             g = int(c[1])
@@ -1203,6 +1230,28 @@ def run_case(line):
         return run_path(c[1], c[2], c[3:])
     if k == 'uop':
         return run_uop(*c[1:])
+    if k == 'upow3':
+        # three-argument power; the modulus is a plain int or (every second time, when it fits) a uint of another width
+        def pow3():
+            a = UINT_BY_W[int(c[1])](int(c[2]))
+            m = int(c[4])
+            if 0 < m < 256 and int(c[3]) % 2:
+                m = UINT_BY_W[2 if int(c[1]) != 2 else 4](m)
+            r = pow(a, int(c[3]), m)
+            if not isinstance(r, uint) or r.type_byte_length() != int(c[1]):
+                return 'plain'
+            return str(int(r))
+        return 'p.r=%s' % E(pow3)
+    if k == 'urefl':
+        def refl():
+            x = UINT_BY_W[int(c[2])](int(c[3]))
+            y = UINT_BY_W[int(c[4])](int(c[5]))
+            return res_str(getattr(y, '__r%s__' % c[1])(x))
+        try:
+            UINT_BY_W[int(c[2])](int(c[3])), UINT_BY_W[int(c[4])](int(c[5]))
+        except Exception:
+            return 'p.r=badoperand'
+        return 'p.r=%s' % E(refl)
     if k == 'uinv':
         return 'p.r=%s' % E(lambda: res_str(~UINT_BY_W[int(c[1])](int(c[2]))))
     if k == 'uctorw':
